@@ -25,7 +25,8 @@ def run_correspondence(prop, binp, cases, label):
         return res
     try:
         outs = vlib.run_harness(binp, prop.harness_sub, [c.line for c in cases],
-                                timeout=prop.harness_timeout, shards=getattr(prop, "harness_shards", None))
+                                timeout=prop.harness_timeout, shards=getattr(prop, "harness_shards", None),
+                                isolate=getattr(prop, "harness_isolate", False))
     except RuntimeError as e:
         res["error"] = "harness: %s" % e
         return res
